@@ -239,6 +239,23 @@ distinct = distinct (size value, pair class) + type codes + layout headers; orac
             seg_count: d.u16(&mut rng),
             seg_num: d.u16(&mut rng),
         };
+        // every eighth header carries the ends of a field's wire type in one of its fields (all
+        // zeros, all ones): 0 is a value like any other - a date of 0, a sequence number of 0
+        let mut h = h;
+        if i % 8 == 3 {
+            let ends = i / 8 % 2 == 0;
+            match i / 16 % 8 {
+                0 => h.size = if ends { 0 } else { 0xFFFE },
+                1 => h.channel = if ends { 0 } else { 0xFF },
+                2 => h.mtype = if ends { 0 } else { 0xFF },
+                3 => h.seq = if ends { 0 } else { 0xFFFF },
+                4 => h.date = if ends { 0 } else { 0xFFFF },
+                5 => h.time = if ends { 0 } else { u32::MAX },
+                6 => h.seg_count = if ends { 0 } else { 0xFFFF },
+                _ => h.seg_num = if ends { 0 } else { 0xFFFF },
+            }
+            ctx.obs.count("layout_headers_with_a_field_at_the_end_of_its_type", 1);
+        }
         ctx.obs.case(mix(100, i));
         let replay = json!({"header": hex(&h.encode())});
         match decode(&h) {
